@@ -107,14 +107,13 @@ fn main() -> Result<(), u32>
     /*
      * Set up the signal handler.
      */
-    if signal_hook::flag::register(
-        signal_hook::consts::SIGTERM | signal_hook::consts::SIGINT,
-        Arc::clone(&app_context.stop_commanded),
-    )
-    .is_err()
+    for signal in [signal_hook::consts::SIGTERM, signal_hook::consts::SIGINT]
     {
-        error!("[ref: 26] Failed to register signal handler");
-        return Err(INIT_ERR_CODE);
+        if signal_hook::flag::register(signal, Arc::clone(&app_context.stop_commanded)).is_err()
+        {
+            error!("[ref: 26] Failed to register signal handler");
+            return Err(INIT_ERR_CODE);
+        }
     }
 
     if app_context.check_mode
